@@ -114,17 +114,18 @@ Section CheckT.
     now rewrite (shape_row _ _ _ _ HA Hr'), (shape_row _ _ _ _ HB Hr').
   Qed.
 
-  Lemma mat_allclose_iff (A B : mat) :
-    mat_allclose N A B = true <->
+  (* np.allclose(A, B, atol=tol), any tolerance *)
+  Lemma mat_allclose_tol_iff (tol : T) (A B : mat) :
+    mat_allclose_tol N tol A B = true <->
     same_dims A B /\
     forall r c, r < length A -> c < length (nth r A []) ->
-      close_c N (mget A r c) (mget B r c) = true.
+      close_c_tol N tol (mget A r c) (mget B r c) = true.
   Proof.
-    unfold mat_allclose, same_dims. rewrite andb_true_iff, Nat.eqb_eq. split.
+    unfold mat_allclose_tol, same_dims. rewrite andb_true_iff, Nat.eqb_eq. split.
     - intros [Hl Hf]. rewrite (forallb_combine_nth _ [] [] A B Hl) in Hf.
       assert (Hrow : forall r, r < length A ->
                 length (nth r A []) = length (nth r B []) /\
-                forall c, c < length (nth r A []) -> close_c N (mget A r c) (mget B r c) = true).
+                forall c, c < length (nth r A []) -> close_c_tol N tol (mget A r c) (mget B r c) = true).
       { intros r Hr. specialize (Hf r Hr). cbn [fst snd] in Hf.
         apply andb_true_iff in Hf. destruct Hf as [Hlr Hfr]. apply Nat.eqb_eq in Hlr.
         split; [exact Hlr|].
@@ -137,6 +138,20 @@ Section CheckT.
       apply (forallb_combine_nth _ (czero N) (czero N) _ _ (Hrows r Hr)).
       intros c Hc. cbn [fst snd]. now apply Hent.
   Qed.
+
+  (* sanity: with numpy's default absolute tolerance this is plain np.allclose
+     (the comparison [is_identity] keeps using) *)
+  Lemma close_c_tol_atol8 (a b : C) : close_c_tol N (atol8 N) a b = close_c N a b.
+  Proof. reflexivity. Qed.
+  Lemma mat_allclose_tol_atol8 (A B : mat) : mat_allclose_tol N (atol8 N) A B = mat_allclose N A B.
+  Proof. reflexivity. Qed.
+
+  Lemma mat_allclose_iff (A B : mat) :
+    mat_allclose N A B = true <->
+    same_dims A B /\
+    forall r c, r < length A -> c < length (nth r A []) ->
+      close_c N (mget A r c) (mget B r c) = true.
+  Proof. rewrite <- mat_allclose_tol_atol8. apply mat_allclose_tol_iff. Qed.
 
   (* ---- mat_scale --------------------------------------------------- *)
 
@@ -260,7 +275,7 @@ Section CheckT.
     equiv_up_to_phase N A B = Ok true <->
     exists ij, argmax_entry N A = Some ij /\
       smallb (mat_get N A ij) = false /\ smallb (mat_get N B ij) = false /\
-      mat_allclose N A (mat_scale N (cdiv N (mat_get N A ij) (mat_get N B ij)) B) = true.
+      mat_allclose_tol N (atol N) A (mat_scale N (cdiv N (mat_get N A ij) (mat_get N B ij)) B) = true.
   Proof.
     unfold equiv_up_to_phase, smallb. destruct (argmax_entry N A) as [ij|].
     - destruct (nltb N (cabs N (mat_get N A ij)) (atol N)) eqn:EA;
@@ -277,7 +292,7 @@ Section CheckT.
     exists ij, argmax_entry N A = Some ij /\
       (smallb (mat_get N A ij) = true \/ smallb (mat_get N B ij) = true \/
        (smallb (mat_get N A ij) = false /\ smallb (mat_get N B ij) = false /\
-        mat_allclose N A (mat_scale N (cdiv N (mat_get N A ij) (mat_get N B ij)) B) = false)).
+        mat_allclose_tol N (atol N) A (mat_scale N (cdiv N (mat_get N A ij) (mat_get N B ij)) B) = false)).
   Proof.
     unfold equiv_up_to_phase, smallb. destruct (argmax_entry N A) as [ij|].
     - destruct (nltb N (cabs N (mat_get N A ij)) (atol N)) eqn:EA;
@@ -289,6 +304,32 @@ Section CheckT.
         destruct H' as [H'|[H'|[_ [_ H']]]]; [discriminate|discriminate|]. now rewrite H'.
     - split; [discriminate|]. intros [ij [H _]]. discriminate.
   Qed.
+
+  (* proof-side only: the same function with the absolute tolerance of its final
+     np.allclose as a parameter.  The library's function is the one at ATOL; the one
+     at numpy's default 1e-8 ([atol8]) is the function before np.allclose was given
+     atol=ATOL *)
+  Definition equiv_up_to_phase_with (tol : T) (A B : mat) : result bool :=
+    match argmax_entry N A with
+    | None => Err EValue
+    | Some ij =>
+        if nltb N (cabs N (mat_get N A ij)) (atol N) || nltb N (cabs N (mat_get N B ij)) (atol N) then Ok false
+        else Ok (mat_allclose_tol N tol A (mat_scale N (cdiv N (mat_get N A ij) (mat_get N B ij)) B))
+    end.
+
+  Lemma equiv_up_to_phase_with_atol (A B : mat) :
+    equiv_up_to_phase_with (atol N) A B = equiv_up_to_phase N A B.
+  Proof. reflexivity. Qed.
+
+  Lemma equiv_up_to_phase_with_atol8 (A B : mat) :
+    equiv_up_to_phase_with (atol8 N) A B =
+    match argmax_entry N A with
+    | None => Err EValue
+    | Some ij =>
+        if nltb N (cabs N (mat_get N A ij)) (atol N) || nltb N (cabs N (mat_get N B ij)) (atol N) then Ok false
+        else Ok (mat_allclose N A (mat_scale N (cdiv N (mat_get N A ij) (mat_get N B ij)) B))
+    end.
+  Proof. reflexivity. Qed.
 
   (* the only error is numpy's ValueError for the argmax of an empty matrix; in
      particular an all-zero A no longer raises (StopIteration used to escape) *)
@@ -502,6 +543,22 @@ Section CheckR.
     apply close_c_iff. rewrite Cabs_sub_self. pose proof (Cabs_nonneg a). lra.
   Qed.
 
+  (* np.isclose(a, b, atol=tol) on one entry: |a - b| <= tol + 1e-5 |b| *)
+  Lemma close_c_tol_iff tol a b :
+    close_c_tol RNum tol a b = true <->
+    Cabs (csub RNum a b) <= tol + 1 / 100000 * Cabs b.
+  Proof. unfold close_c_tol. cbn [nleb RNum]. apply Rleb_true. Qed.
+
+  Lemma close_c_tol_refl tol a : 0 <= tol -> close_c_tol RNum tol a a = true.
+  Proof.
+    intros Ht. apply close_c_tol_iff. rewrite Cabs_sub_self. pose proof (Cabs_nonneg a). lra.
+  Qed.
+
+  (* a larger absolute tolerance accepts more *)
+  Lemma close_c_tol_mono tol tol' a b : tol <= tol' ->
+    close_c_tol RNum tol a b = true -> close_c_tol RNum tol' a b = true.
+  Proof. intros Ht. rewrite !close_c_tol_iff. lra. Qed.
+
   (* ---- A.1  np.allclose -------------------------------------------- *)
 
   Theorem mat_allclose_sound (A B : matR) :
@@ -553,10 +610,76 @@ Section CheckR.
     intros r c _ _. apply close_c_refl.
   Qed.
 
+  (* ---- A.1'  np.allclose(A, B, atol=tol) ------------------------------ *)
+
+  Theorem mat_allclose_tol_sound tol (A B : matR) :
+    mat_allclose_tol RNum tol A B = true ->
+    length A = length B /\
+    (forall r, (r < length A)%nat -> length (nth r A []) = length (nth r B [])) /\
+    forall r c, (r < length A)%nat -> (c < length (nth r A []))%nat ->
+      Cabs (csub RNum (mgetR A r c) (mgetR B r c))
+      <= tol + 1 / 100000 * Cabs (mgetR B r c).
+  Proof.
+    intros H. apply mat_allclose_tol_iff in H. destruct H as [[Hl Hr] He].
+    split; [exact Hl|]. split; [exact Hr|].
+    intros r c Hr' Hc. apply close_c_tol_iff. now apply He.
+  Qed.
+
+  Theorem mat_allclose_tol_complete tol (A B : matR) :
+    length A = length B ->
+    (forall r, (r < length A)%nat -> length (nth r A []) = length (nth r B [])) ->
+    (forall r c, (r < length A)%nat -> (c < length (nth r A []))%nat ->
+      Cabs (csub RNum (mgetR A r c) (mgetR B r c))
+      <= tol + 1 / 100000 * Cabs (mgetR B r c)) ->
+    mat_allclose_tol RNum tol A B = true.
+  Proof.
+    intros Hl Hr He. apply mat_allclose_tol_iff. split; [split; assumption|].
+    intros r c Hr' Hc. apply close_c_tol_iff. now apply He.
+  Qed.
+
+  Corollary mat_allclose_tol_shape_iff tol nr nc (A B : matR) :
+    shape nr nc A -> shape nr nc B ->
+    (mat_allclose_tol RNum tol A B = true <->
+     forall r c, (r < nr)%nat -> (c < nc)%nat ->
+       Cabs (csub RNum (mgetR A r c) (mgetR B r c))
+       <= tol + 1 / 100000 * Cabs (mgetR B r c)).
+  Proof.
+    intros HA HB. pose proof (same_dims_shape _ _ _ _ HA HB) as [Hl Hrows].
+    assert (HlA : length A = nr) by (destruct HA; assumption).
+    split.
+    - intros H r c Hr Hc. apply mat_allclose_tol_sound in H. destruct H as [_ [_ H]].
+      apply H; [lia|]. now rewrite (shape_row _ _ _ _ HA Hr).
+    - intros H. apply mat_allclose_tol_complete; [exact Hl|exact Hrows|].
+      intros r c Hr Hc. assert (Hr' : (r < nr)%nat) by lia.
+      rewrite (shape_row _ _ _ _ HA Hr') in Hc. now apply H.
+  Qed.
+
+  Lemma mat_allclose_tol_refl tol (A : matR) : 0 <= tol -> mat_allclose_tol RNum tol A A = true.
+  Proof.
+    intros Ht. apply mat_allclose_tol_iff. split; [split; [reflexivity|intros; reflexivity]|].
+    intros r c _ _. now apply close_c_tol_refl.
+  Qed.
+
+  (* whatever plain np.allclose accepts, the comparison with atol=ATOL accepts *)
+  Lemma mat_allclose_tol_mono tol tol' (A B : matR) : tol <= tol' ->
+    mat_allclose_tol RNum tol A B = true -> mat_allclose_tol RNum tol' A B = true.
+  Proof.
+    intros Ht. rewrite !mat_allclose_tol_iff. intros [Hd He]. split; [exact Hd|].
+    intros r c Hr Hc. apply (close_c_tol_mono tol tol'); [exact Ht|now apply He].
+  Qed.
+
+  Corollary mat_allclose_implies_tol_ATOL (A B : matR) :
+    mat_allclose RNum A B = true -> mat_allclose_tol RNum ATOL A B = true.
+  Proof.
+    rewrite <- mat_allclose_tol_atol8. apply mat_allclose_tol_mono.
+    unfold atol8, ATOL. rnum_cbn. lra.
+  Qed.
+
   (* ---- A.2  are_matrices_equivalent_up_to_global_phase (as repaired) ---- *)
 
   (* acceptance: A and B have the same dimensions and A equals p * B entrywise
-     within 1e-8 + 1e-5 |p B_rc|, for the ONE factor p = A_ij / B_ij read off
+     within ATOL + 1e-5 |p B_rc| (np.allclose(..., atol=ATOL); ATOL = 1e-7), for
+     the ONE factor p = A_ij / B_ij read off
      at the first entry of A (row-major) of LARGEST modulus; neither A_ij nor
      B_ij is below ATOL *)
   Theorem equiv_up_to_phase_sound (A B : matR) :
@@ -575,14 +698,15 @@ Section CheckR.
       (forall r, (r < length A)%nat -> length (nth r A []) = length (nth r B [])) /\
       forall r c, (r < length A)%nat -> (c < length (nth r A []))%nat ->
         Cabs (csub RNum (mgetR A r c) (cmul RNum p (mgetR B r c)))
-        <= 1 / 100000000 + 1 / 100000 * Cabs (cmul RNum p (mgetR B r c)).
+        <= ATOL + 1 / 100000 * Cabs (cmul RNum p (mgetR B r c)).
   Proof.
     intros H. apply equiv_up_to_phase_true_iff in H. destruct H as [[i j] [Hfn [Ha [Hb Hc]]]].
     destruct (argmax_entry_spec _ _ _ Hfn) as [H2 [H3 [H4 H5]]].
     change (mat_get RNum A (i, j)) with (mgetR A i j) in Ha, Hc.
     change (mat_get RNum B (i, j)) with (mgetR B i j) in Hb, Hc.
     set (p := cdiv RNum (mgetR A i j) (mgetR B i j)) in *.
-    apply mat_allclose_sound in Hc. destruct Hc as [Hl [Hrows Hent]].
+    apply mat_allclose_tol_sound in Hc. destruct Hc as [Hl [Hrows Hent]].
+    change (atol RNum) with ATOL in Hent.
     rewrite mat_scale_length in Hl.
     exists i, j, p.
     split; [exact Hfn|]. split; [exact H2|]. split; [exact H3|]. split; [exact H4|].
@@ -601,17 +725,29 @@ Section CheckR.
     exists i j, argmax_entry RNum A = Some (i, j) /\
       (Cabs (mgetR A i j) < ATOL \/ Cabs (mgetR B i j) < ATOL \/
        (ATOL <= Cabs (mgetR A i j) /\ ATOL <= Cabs (mgetR B i j) /\
-        mat_allclose RNum A (mat_scale RNum (cdiv RNum (mgetR A i j) (mgetR B i j)) B) = false)).
+        mat_allclose_tol RNum ATOL A (mat_scale RNum (cdiv RNum (mgetR A i j) (mgetR B i j)) B) = false)).
   Proof.
     rewrite equiv_up_to_phase_false_iff. split.
     - intros [[i j] [Hfn H]]. exists i, j. split; [exact Hfn|].
       change (mat_get RNum A (i, j)) with (mgetR A i j) in H.
       change (mat_get RNum B (i, j)) with (mgetR B i j) in H.
-      rewrite !smallb_iff, !smallb_false_iff in H. exact H.
+      rewrite !smallb_iff, !smallb_false_iff in H. change (atol RNum) with ATOL in H. exact H.
     - intros [i [j [Hfn H]]]. exists (i, j). split; [exact Hfn|].
       change (mat_get RNum A (i, j)) with (mgetR A i j).
       change (mat_get RNum B (i, j)) with (mgetR B i j).
-      rewrite !smallb_iff, !smallb_false_iff. exact H.
+      rewrite !smallb_iff, !smallb_false_iff. change (atol RNum) with ATOL. exact H.
+  Qed.
+
+  (* giving np.allclose atol=ATOL only widens acceptance: whatever the comparison
+     accepted with numpy's default 1e-8 it still accepts *)
+  Theorem equiv_up_to_phase_accepts_more (A B : matR) :
+    equiv_up_to_phase_with RNum (atol8 RNum) A B = Ok true -> equiv_up_to_phase RNum A B = Ok true.
+  Proof.
+    unfold equiv_up_to_phase_with, equiv_up_to_phase.
+    destruct (argmax_entry RNum A) as [ij|]; [|discriminate].
+    destruct (orb _ _); [discriminate|]. intros H. injection H as H. f_equal.
+    apply (mat_allclose_tol_mono (atol8 RNum) (atol RNum)); [|exact H].
+    unfold atol8, atol. rnum_cbn. lra.
   Qed.
 
   (* the only error is numpy's ValueError for np.argmax of an empty matrix *)
@@ -654,7 +790,7 @@ Section CheckR.
     { rewrite HAij, Cabs_mul, Hz in H4. lra. }
     split; [apply smallb_false_iff; lra|]. split; [apply smallb_false_iff; exact HBabs|].
     rewrite HAij, cdiv_cmul_cancel.
-    - rewrite <- HA. apply mat_allclose_refl.
+    - rewrite <- HA. apply mat_allclose_tol_refl. change (atol RNum) with ATOL. pose proof ATOL_pos. lra.
     - apply Cabs_pos_sq. pose proof ATOL_pos. lra.
   Qed.
 
@@ -699,7 +835,7 @@ Section CheckR.
       + change (mat_get RNum [[(2, 0)]] (0%nat, 0%nat)) with (2, 0).
         change (mat_get RNum [[(1, 0)]] (0%nat, 0%nat)) with (1, 0).
         replace (mat_scale RNum (cdiv RNum (1, 0) (2, 0)) [[(2, 0)]]) with [[(1, 0)]].
-        * apply mat_allclose_refl.
+        * apply mat_allclose_tol_refl. change (atol RNum) with ATOL. pose proof ATOL_pos. lra.
         * unfold mat_scale, cdiv, cmul, nsq. cbn [map]. rnum_cbn.
           repeat (apply f_equal2; [|reflexivity]). apply pair_eq; field.
   Qed.
@@ -1173,7 +1309,7 @@ Section CheckerR.
      2^k x 2^k matrices on those qubits exist, and they agree entrywise up to ONE
      complex factor p (read off at the first entry of LARGEST modulus of the gate's
      matrix; neither that entry nor the replacement's is below ATOL) within
-     1e-8 + 1e-5 |p B_rc| *)
+     ATOL + 1e-5 |p B_rc| (ATOL = 1e-7: np.allclose is called with atol=ATOL) *)
   Theorem check_sound (g : gate R) (repl : list (gate R)) :
     check_replacement RNum g repl = Ok tt ->
     (forall g' q, In g' repl -> In q (gate_qubits g') -> In q (gate_qubits g)) /\
@@ -1189,7 +1325,7 @@ Section CheckerR.
       p = cdiv RNum (mgetR A i j) (mgetR B i j) /\
       forall r c, (r < d)%nat -> (c < d)%nat ->
         Cabs (csub RNum (mgetR A r c) (cmul RNum p (mgetR B r c)))
-        <= 1 / 100000000 + 1 / 100000 * Cabs (cmul RNum p (mgetR B r c)).
+        <= ATOL + 1 / 100000 * Cabs (cmul RNum p (mgetR B r c)).
   Proof.
     intros H. apply check_replacement_spec in H. destruct H as [Hsub [A [B [HA [HB He]]]]].
     split; [now apply check_subset_iff|].
@@ -1672,6 +1808,91 @@ Section ExamplesR.
   (* np.argmax of an empty matrix: ValueError *)
   Example equiv_empty_error B : equiv_up_to_phase RNum [] B = Err EValue.
   Proof. reflexivity. Qed.
+
+  (* ---- the two tolerances told apart ----------------------------------- *)
+
+  (* the identity with 5e-8 in the (zero) entry (0,1) *)
+  Definition I2eps : list (list (R * R)) := [[(1, 0); (5 / 100000000, 0)]; [(0, 0); (1, 0)]].
+
+  Lemma Cabs_real x : 0 <= x -> Cabs (x, 0) = x.
+  Proof.
+    intros Hx. unfold Cabs. cbn [fst snd]. replace (x * x + 0 * 0) with (x * x) by ring.
+    now apply sqrt_square.
+  Qed.
+
+  Lemma argmax_entry_I2 : argmax_entry RNum I2m = Some (0%nat, 0%nat).
+  Proof.
+    apply argmax_entry_complete; unfold I2m; cbn [length nth]; try lia.
+    intros r c Hr Hc. entries2 r c Hr Hc; lra.
+  Qed.
+
+  Lemma I2eps_scaled :
+    mat_scale RNum (cdiv RNum (mat_get RNum I2m (0%nat, 0%nat)) (mat_get RNum I2eps (0%nat, 0%nat))) I2eps
+    = I2eps.
+  Proof.
+    change (mat_get RNum I2m (0%nat, 0%nat)) with (1, 0).
+    change (mat_get RNum I2eps (0%nat, 0%nat)) with (1, 0).
+    rewrite cdiv_self by (cbn [fst snd]; lra). apply mat_scale_one.
+  Qed.
+
+  Lemma I2_I2eps_tests :
+    nltb RNum (cabs RNum (mat_get RNum I2m (0%nat, 0%nat))) (atol RNum)
+    || nltb RNum (cabs RNum (mat_get RNum I2eps (0%nat, 0%nat))) (atol RNum) = false.
+  Proof.
+    change (mat_get RNum I2m (0%nat, 0%nat)) with (1, 0).
+    change (mat_get RNum I2eps (0%nat, 0%nat)) with (1, 0).
+    change (cabs RNum (1, 0)) with (Cabs (1, 0)). rewrite Cabs_one. change (atol RNum) with ATOL.
+    cbn [nltb RNum]. replace (Rltb 1 ATOL) with false; [reflexivity|].
+    symmetry. apply Rltb_false. unfold ATOL. lra.
+  Qed.
+
+  (* the difference at (0,1) is 5e-8, against a right-hand side entry of modulus 5e-8 *)
+  Lemma I2_I2eps_entry :
+    Cabs (csub RNum (mget RNum I2m 0 1) (mget RNum I2eps 0 1)) = 5 / 100000000 /\
+    Cabs (mget RNum I2eps 0 1) = 5 / 100000000.
+  Proof.
+    change (mget RNum I2m 0 1) with (0, 0). change (mget RNum I2eps 0 1) with (5 / 100000000, 0).
+    split; [|apply Cabs_real; lra].
+    unfold Cabs, csub. rnum_cbn.
+    replace ((0 - 5 / 100000000) * (0 - 5 / 100000000) + (0 - 0) * (0 - 0))
+      with ((5 / 100000000) * (5 / 100000000)) by field.
+    apply sqrt_square. lra.
+  Qed.
+
+  (* np.allclose(..., atol=ATOL): 5e-8 <= 1e-7 + 1e-5 * 5e-8, accepted *)
+  Example equiv_I_I2eps_accepted : equiv_up_to_phase RNum I2m I2eps = Ok true.
+  Proof.
+    unfold equiv_up_to_phase. rewrite argmax_entry_I2, I2_I2eps_tests, I2eps_scaled. f_equal.
+    apply mat_allclose_tol_complete; [reflexivity|intros [|[|r]] Hr; cbn in *; [reflexivity|reflexivity|lia]|].
+    change (atol RNum) with ATOL. unfold ATOL.
+    intros r c Hr Hc. destruct r as [|[|r]]; [| |cbn in Hr; lia];
+      (destruct c as [|[|c]]; [| |cbn in Hc; lia]).
+    - change (mget RNum I2m 0 0) with (1, 0). change (mget RNum I2eps 0 0) with (1, 0).
+      rewrite Cabs_sub_self, Cabs_one. lra.
+    - destruct I2_I2eps_entry as [-> ->]. lra.
+    - change (mget RNum I2m 1 0) with (0, 0). change (mget RNum I2eps 1 0) with (0, 0).
+      rewrite Cabs_sub_self, Cabs_zero. lra.
+    - change (mget RNum I2m 1 1) with (1, 0). change (mget RNum I2eps 1 1) with (1, 0).
+      rewrite Cabs_sub_self, Cabs_one. lra.
+  Qed.
+
+  (* plain np.allclose (atol = 1e-8): 5e-8 > 1e-8 + 1e-5 * 5e-8, it was rejected *)
+  Example equiv_I_I2eps_rejected_atol8 :
+    equiv_up_to_phase_with RNum (atol8 RNum) I2m I2eps = Ok false.
+  Proof.
+    unfold equiv_up_to_phase_with. rewrite argmax_entry_I2, I2_I2eps_tests, I2eps_scaled. f_equal.
+    apply not_true_is_false. intros H. apply mat_allclose_tol_sound in H.
+    destruct H as [_ [_ H]]. specialize (H 0%nat 1%nat ltac:(cbn; lia) ltac:(cbn; lia)).
+    destruct I2_I2eps_entry as [E1 E2]. rewrite E1, E2 in H.
+    unfold atol8 in H. revert H. rnum_cbn. lra.
+  Qed.
+
+  Example allclose_I_I2eps_rejected : mat_allclose RNum I2m I2eps = false.
+  Proof.
+    apply not_true_is_false. intros H. apply mat_allclose_sound in H.
+    destruct H as [_ [_ H]]. specialize (H 0%nat 1%nat ltac:(cbn; lia) ltac:(cbn; lia)).
+    destruct I2_I2eps_entry as [E1 E2]. rewrite E1, E2 in H. lra.
+  Qed.
 End ExamplesR.
 
 (* the same definitions run by the kernel on a decidable dictionary: fixed-point
@@ -1717,6 +1938,44 @@ Section ExamplesFix.
   Proof. vm_compute. reflexivity. Qed.
   Example fix_equiv_empty : equiv_up_to_phase FixNum [] FM1 = Err EValue.
   Proof. vm_compute. reflexivity. Qed.
+  (* the final comparison is np.allclose(..., atol=ATOL): 10 units of 1e-8 *)
+  Example fix_allclose_is_tol_atol8 :
+    mat_allclose_tol FixNum (atol8 FixNum) FM1 FM1i = mat_allclose FixNum FM1 FM1i.
+  Proof. reflexivity. Qed.
+  Example fix_atol8 : atol8 FixNum = 1.
+  Proof. vm_compute. reflexivity. Qed.
+
+  (* 8 decimals cannot square 5e-8; the two tolerances are told apart on the same
+     dictionary with 16 decimals (entries are written multiplied by 10^16) *)
+  Definition FS16 : Z := 10000000000000000.
+  Definition FixNum16 : Num Z := {|
+    nofZ := fun z => z * FS16; nadd := Z.add; nsub := Z.sub; nmul := fun x y => x * y / FS16;
+    ndiv := fun x y => x * FS16 / y; nneg := Z.opp; nabs := Z.abs;
+    nsqrt := fun x => Z.sqrt (x * FS16); nsin := fun _ => 0; ncos := fun _ => 0;
+    ntan := fun _ => 0; nacos := fun _ => 0; natan2 := fun _ _ => 0; npi := 31415926535897932;
+    nfloordiv := Z.div; nmod := Z.modulo; nltb := Z.ltb; nleb := Z.leb; neqb := Z.eqb;
+    ncopysign := fun x _ => x; nround := fun _ x => x; nroundpy := fun _ x => x;
+    nisfinite := fun _ => true; ndegrees := fun x => x |}.
+  (* the identity, and the identity with 5e-8 in the zero entry (0,1) *)
+  Definition GI : list (list (Z * Z)) := [[(FS16, 0); (0, 0)]; [(0, 0); (FS16, 0)]].
+  Definition GIeps : list (list (Z * Z)) := [[(FS16, 0); (500000000, 0)]; [(0, 0); (FS16, 0)]].
+
+  Example fix16_tolerances : (atol FixNum16, atol8 FixNum16, rtol FixNum16) = (1000000000, 100000000, 100000000000).
+  Proof. vm_compute. reflexivity. Qed.
+  Example fix16_diff : cabs FixNum16 (csub FixNum16 (0, 0) (500000000, 0)) = 500000000.
+  Proof. vm_compute. reflexivity. Qed.
+  (* accepted by np.allclose(..., atol=ATOL), in either order *)
+  Example fix16_equiv_eps : equiv_up_to_phase FixNum16 GI GIeps = Ok true.
+  Proof. vm_compute. reflexivity. Qed.
+  Example fix16_equiv_eps' : equiv_up_to_phase FixNum16 GIeps GI = Ok true.
+  Proof. vm_compute. reflexivity. Qed.
+  (* rejected when the final comparison is plain np.allclose (atol = 1e-8) *)
+  Example fix16_equiv_eps_atol8 : equiv_up_to_phase_with FixNum16 (atol8 FixNum16) GI GIeps = Ok false.
+  Proof. vm_compute. reflexivity. Qed.
+  Example fix16_equiv_eps_atol8' : equiv_up_to_phase_with FixNum16 (atol8 FixNum16) GIeps GI = Ok false.
+  Proof. vm_compute. reflexivity. Qed.
+  Example fix16_allclose_eps : mat_allclose FixNum16 GI GIeps = false.
+  Proof. vm_compute. reflexivity. Qed.
 End ExamplesFix.
 
 (* ================================================================== *)
@@ -1737,6 +1996,9 @@ Print Assumptions gate_eq_dispatch.
 Print Assumptions union_order_covers.
 Print Assumptions compare_gates_total.
 Print Assumptions mat_allclose_sound.
+Print Assumptions mat_allclose_tol_iff.
+Print Assumptions mat_allclose_tol_sound.
+Print Assumptions mat_allclose_tol_complete.
 Print Assumptions equiv_up_to_phase_sound.
 Print Assumptions equiv_up_to_phase_complete_exact.
 Print Assumptions check_accepts_empty_for_zero_rotation.
